@@ -677,6 +677,13 @@ def recv_scenarios(chk, rig):
         rng.shuffle(order)
         scs.append(mk_scenario(rng, trs, order, dup=rng.choice([0, 0, 1, 3]), compose=rng.choice([0, 0.5, 0.9]),
                                pad=rng.choice([0, 0.5]), extras=rng.choice([0, 1, 2])))
+    # data rich in zero octets (segments and frames end in 0x00; a zero octet only starts padding where a message would start)
+    for n in (2, 3, 5):
+        for data in (bytes(40), b'\x9f' + bytes(60) + b'\xff', bytes(0 if i % 3 == 2 else i % 250 + 1 for i in range(90))):
+            chunks = split_chunks(rng, data, n)
+            order = list(range(n))
+            rng.shuffle(order)
+            scs.append(mk_scenario(rng, [(CHANS[0], 12, data, chunks)], [(0, p) for p in order], compose=rng.choice([0, 0.7])))
     # a peer that sends a transfer of one segment (TransferEnd with index 0)
     for L in (1, 5):
         data = payload(L, 1)
@@ -749,8 +756,10 @@ def _rxq_phase(rng, first_idx, n, chans, pack, with_xfers, pop, order):
         chan = chans[i % len(chans)]
         data = bytes([0x9f]) + bytes(((idx * 31 + k * 7) % 251) + 1 for k in range(2 + (idx * 5) % 40)) + bytes([idx % 251 + 1, 0xff])
         if with_xfers and i % 2 == 1:
+            # the peer's transfer number coincides with a receive id that is queued, is allocated now, or next
+            xnum = [idx - 1, idx + 1, idx][(i // 2) % 3]
             chunks = split_chunks(rng, data, rng.choice([1, 2, 3]))
-            msgs = [['seg', 1000 + idx, len(data), si, si == len(chunks) - 1, ch.hex()] for si, ch in enumerate(chunks)]
+            msgs = [['seg', xnum, len(data), si, si == len(chunks) - 1, ch.hex()] for si, ch in enumerate(chunks)]
         else:
             msgs = [['bundle', data.hex()]]
         seq += [(chan, m) for m in msgs]
@@ -783,7 +792,7 @@ def rx_queue_histories(rng, tier):
     for n in (2, 3, 11):
         for chans in ([CHANS[0]], [CHANS[0], CHANS[1]]):
             for pack in ('one', 'each'):
-                hs.append({'kind': 'rxq', 'phases': [_rxq_phase(rng, 0, n, chans, pack, n == 3, 'all', 'listed')]})
+                hs.append({'kind': 'rxq', 'phases': [_rxq_phase(rng, 0, n, chans, pack, n != 2 or pack == 'each', 'all', 'listed')]})
     for chans in ([CHANS[0]], [CHANS[0], CHANS[2]]):
         hs.append({'kind': 'rxq', 'phases': [
             _rxq_phase(rng, 0, 3, chans, 'one', False, 'half', 'listed'),
